@@ -35,7 +35,7 @@ from .c19 import SymStr, sv, re_stub, WORD
 PROP = "C11"
 Z3_TIMEOUT_MS = 3000
 CVC5_TIMEOUT_MS = 25000
-FILTER = r"#decl|#emit|#loop|add_op#|#flags|#getter|#names|fbody#|bundle_usage#|declaration-shape|#well-sorted|#total|#ends-with-return|#order"
+FILTER = r"#decl|#emit|#loop|add_op#|#flags|#getter|#names|fbody#|bundle_usage#|declaration-shape|#well-sorted|#total|#ends-with-return|#order|#reset\.(holder|transformer)"
 
 MUTANTS = [
     {"name": "add_op: name suffix uses a constant", "file": "rzilcompiler/Transformer/RZILTransformer.py",
@@ -529,6 +529,12 @@ def gen_shared(loader, check, what, replay_on=True):
         c09.gen_rendering(loader, check, replay_on)
     elif what == "final":
         c05.gen_stmt_callbacks(loader, check, replay_on)
+    elif what == "history":
+        # "declared exactly once and before its first use" for every history of the compiler instance: nothing registered or pending
+        # survives into the next text (C14's reset / entry-point contracts, holder tables only)
+        from . import c14
+        c14.gen_reset(loader, check, replay_on)
+        c14.gen_entry_points(loader, check, replay_on)
 
 
 def gen_task(loader, check, what, replay_on=True):
@@ -541,7 +547,7 @@ def gen_task(loader, check, what, replay_on=True):
 
 def generate_reduced(loader, check):
     check.ob_filter = FILTER
-    for w in ("add_op", "order", "fbody", "record", "record_ground", "reg_decls", "catalog", "loops", "final"):
+    for w in ("add_op", "order", "fbody", "record", "record_ground", "reg_decls", "catalog", "loops", "final", "history"):
         gen_task(loader, check, w, False)
 
 
@@ -556,7 +562,7 @@ def run(check: Check):
     check.assume("A-NAMES is the only assumption left about add_op: user identifiers do not collide with internal base names")
     check.assume("code strings passed to RZILInstruction / SubRoutine have the shape fbody guarantees (start with newline or 'return', end with ';')")
     check.ob_filter = FILTER
-    tasks = [{"what": w} for w in ("add_op", "order", "fbody", "record", "record_ground", "names", "reg_decls", "catalog", "loops", "rendering", "final")]
+    tasks = [{"what": w} for w in ("add_op", "order", "fbody", "record", "record_ground", "names", "reg_decls", "catalog", "loops", "rendering", "final", "history")]
     check.run_parallel("contracts.c11", "gen_task", tasks, workers=WORKERS, sink_attrs={"ob_filter": FILTER, "z3_timeout_ms": Z3_TIMEOUT_MS,
                                                                                         "cvc5_timeout_ms": CVC5_TIMEOUT_MS, "string_refute_bound": 6})
     run_mutants(check, MUTANTS, "contracts.c11", "generate_reduced")
